@@ -18,6 +18,11 @@ use std::task::Waker;
 use crate::tape::Stream;
 use crate::tape::Tape;
 
+/// No simulated world comes anywhere near this many seam operations.
+pub const OP_BOUND: usize = 20_000;
+pub const LIVELOCK_MSG: &str =
+  "dsim: operation bound exceeded (the build keeps issuing requests: livelock)";
+
 pub type BoxedFuture = Pin<Box<dyn Future<Output = ()> + 'static>>;
 
 #[derive(Clone, Copy, Debug, PartialEq, Eq)]
@@ -314,6 +319,12 @@ impl Sim {
     };
     let mut inner = self.inner.borrow_mut();
     let id = inner.ops.len();
+    if id >= OP_BOUND {
+      drop(inner);
+      // a build that keeps issuing requests without end inside one poll
+      // cannot be interrupted by the scheduler; unwind out of it
+      panic!("{}", LIVELOCK_MSG);
+    }
     inner.ops.push(Op {
       kind,
       label,
@@ -605,6 +616,9 @@ impl Sim {
               // the future must not be polled or dropped normally after a
               // panic mid-poll; leak it
               std::mem::forget(main);
+              if msg == LIVELOCK_MSG {
+                return RunEnd::StepBound(OP_BOUND as u64);
+              }
               return RunEnd::Panic(msg);
             }
           }
@@ -615,7 +629,11 @@ impl Sim {
           ));
           if let Err(p) = res {
             std::mem::forget(main);
-            return RunEnd::Panic(panic_message(&p));
+            let msg = panic_message(&p);
+            if msg == LIVELOCK_MSG {
+              return RunEnd::StepBound(OP_BOUND as u64);
+            }
+            return RunEnd::Panic(msg);
           }
         }
         Action::Complete(i) => self.complete_op(i),
